@@ -176,6 +176,23 @@ def check(case):
                 v = float(th[0, -1] + dy[0, -1])
             if abs(v - 2 * numpy.pi) > 1e-10:
                 fail("C08/theta-2pi/%s" % topo, {"theta_last_core_face": v, "indices": {k: t[k] for k in t}}, {"topology": topo})
+            # in between: round the core in BOUT++'s y order (inner core, then across the upper legs
+            # to the outer core) theta advances by dy per cell; theta and theta_xlow sit half a cell
+            # above theta_ylow
+            ys_core = [y for y in range(t["ny"]) if bm.is_core_cell(t, 0, y)]
+            acc = 0.0
+            for y in ys_core:
+                yf = bm.file_y(t, y)
+                for name, off in (("theta_ylow", 0.0), ("theta", 0.5), ("theta_xlow", 0.5)):
+                    got = float(nc[name][0, yf])
+                    wantv = acc + off * float(dy[0, yf])
+                    if abs(got - wantv) > 1e-10:
+                        fail(
+                            "C08/theta-not-cumulative-dy/%s/guards%s" % (topo, ">0" if myg > 0 else "=0"),
+                            {"variable": name, "bout_y": y, "yfile": yf, "got": got, "want": wantv},
+                            {"topology": topo},
+                        )
+                acc += float(dy[0, yf])
         # chi: NaN exactly on open cells (guards included); chi = 2 pi zShift/ShiftAngle is 0/0
         # when there is no toroidal field, so the clause needs Bt != 0
         has_bt = bool(numpy.any(nc["Btxy"] != 0.0))
